@@ -9,7 +9,88 @@ import pennylane as qp
 
 from .. import deriv, devsim, lib
 from ..lib import CheckResult, Violation
-from .c34 import M, build_ops_fn, gen_case, tlc_ops
+from ..codec import decode_gate, rec
+from .c34 import M, gen_case
+from .c34 import build_ops_fn as _build_ops_fn_c34
+
+
+def tlc_ops(c):
+    return [{k: v for k, v in g.items() if k not in ("aff", "rot")} for g in c["ops"]]
+
+
+def gen_directed(rng, kind):
+    """Directed families the random generator reaches too rarely:
+    rot    - multi-parameter gates (qp.Rot, written RZ RY RZ for the exact oracle) whose angles are separate / shared arguments:
+             Hessian entries BETWEEN two angles of one gate;
+    crot   - a trainable controlled rotation (4-term shift rule, shifts 2pi apart) under an observable that sees the control
+             qubit's relative phase, differentiated twice with max_diff=2 (execution cache in play);
+    shared - arguments shared between gates and rescaled, with a probs measurement (classical Jacobian contracted on both sides
+             of a vector-valued Hessian)."""
+    ops, tr = [], []
+
+    def train(name, wires, i, c=1, b=0, **extra):
+        g = rec(name, wires, [0])
+        g["p"] = [(c * x[i] + b) % 32]
+        g["aff"] = (i, c, b)
+        g.update(extra)
+        tr.append(len(ops))
+        ops.append(g)
+
+    if kind == "rot":
+        n = 2
+        m = rng.choice([3, 4])
+        x = [rng.randrange(1, 16) for _ in range(m)]
+        ops.append(rec("Hadamard", [1])); ops.append(rec("SX", [2]))
+        w = rng.randint(1, 2)
+        idx = rng.sample(range(m), 3) if rng.random() < 0.6 else [0, 1, 0]
+        train("RZ", [w], idx[0], rot="head"); train("RY", [w], idx[1], rot="mid"); train("RZ", [w], idx[2], rot="tail")
+        ops.append(rec("CNOT", [1, 2]))
+        for i in range(m):
+            if i not in idx:
+                train(rng.choice(["RX", "RY"]), [rng.randint(1, 2)], i)
+        meas = ("expval", [rng.randint(1, 3), rng.randint(1, 3)])
+    elif kind == "crot":
+        n = 2
+        x = [rng.randrange(1, 16) for _ in range(2)]
+        train("RY", [1], 0)
+        ops.append(rec("RX", [2], [rng.randrange(1, 16)]))
+        train(rng.choice(["CRX", "CRY", "CRZ"]), [1, 2], 1)
+        ops.append(rec("RY", [1], [rng.randrange(1, 16)]))
+        ops.append(rec("CNOT", [1, 2]))
+        meas = ("expval", [rng.choice([1, 2]), rng.randint(1, 3)])
+    else:
+        n = 2
+        x = [rng.randrange(1, 16) for _ in range(2)]
+        ops.append(rec("Hadamard", [2]))
+        train("RX", [1], 0); train("RY", [2], 0, c=2); train("RY", [1], 1, c=-1, b=3)
+        ops.append(rec("CNOT", [1, 2]))
+        train("RX", [2], 1)
+        meas = ("probs", rng.choice([[1], [2], [1, 2]]))
+    return {"n": n, "x": x, "ops": ops, "tr": tr, "meas": meas, "directed": kind}
+
+
+def build_ops_fn(c):
+    """as c34.build_ops_fn, with RZ RY RZ triples marked rot=head/mid/tail emitted as one qp.Rot"""
+    if not any(g.get("rot") for g in c["ops"]):
+        return _build_ops_fn_c34(c)
+    base = _build_ops_fn_c34(dict(c, ops=[]))      # measurement part only
+
+    def f(x):
+        ang = []
+        for g in c["ops"]:
+            if g.get("rot"):
+                i, cc, b = g["aff"]
+                ang.append(cc * x[i] + lib.angle_of(b, M))
+                if g["rot"] == "tail":
+                    qp.Rot(*ang, wires=[w - 1 for w in g["w"]])
+                    ang = []
+            elif "aff" in g:
+                i, cc, b = g["aff"]
+                getattr(qp, g["g"])(cc * x[i] + lib.angle_of(b, M), wires=[w - 1 for w in g["w"]])
+            else:
+                decode_gate({k: v for k, v in g.items() if k != "aff"}, M)
+        return base(x)
+    return f
 
 
 def exact_hessian(c, st):
@@ -50,7 +131,13 @@ def pl_hessians(c, full=True):
             if c["meas"][0] == "expval" else None
     except Exception as e:
         out["torch:backprop"] = e
-    # the dedicated transform
+    # the dedicated transform at QNode level (classical Jacobian of shared / rescaled arguments contracted on both sides)
+    try:
+        qn = qp.QNode(f, dev, interface="autograd", diff_method="parameter-shift", max_diff=2)
+        out["param_shift_hessian[qnode]"] = ("qnode", np.asarray(qp.gradients.param_shift_hessian(qn)(pnp.array(xs, requires_grad=True)), dtype=float))
+    except Exception as e:
+        out["param_shift_hessian[qnode]"] = e
+    # the dedicated transform on the tape
     try:
         tape = qp.workflow.construct_tape(qp.QNode(f, dev, interface="autograd"))(pnp.array(xs, requires_grad=True))
         tapes, fn = qp.gradients.param_shift_hessian(tape)
@@ -68,15 +155,26 @@ def run(tier, seed):
         c = gen_case(rng)
         if c["meas"][0] in ("expval", "probs") and len(c["tr"]) <= 4:
             cases.append(c)
+    nd = 2 if tier == "quick" else 25
+    cases += [gen_directed(rng, k) for k in ("rot", "crot", "shared") for _ in range(nd)]
     sts, stats = deriv.states("C37", [{"n": c["n"], "ops": tlc_ops(c), "tr": c["tr"]} for c in cases], M, order=2)
     viol, n_cmp, rej, samples, nontriv = [], 0, {}, [], set()
     for ci, (c, st) in enumerate(zip(cases, sts)):
         H = exact_hessian(c, st)
-        for tag, val in pl_hessians(c, full=(tier != "quick" or ci % 4 == 0)).items():
+        for tag, val in pl_hessians(c, full=(tier != "quick" or ci % 4 == 0 or bool(c.get("directed")))).items():
             if val is None:
                 continue
             if isinstance(val, Exception):
                 rej[f"{tag}:{type(val).__name__}"] = rej.get(f"{tag}:{type(val).__name__}", 0) + 1
+                continue
+            if isinstance(val, tuple) and val[0] == "qnode":
+                Hp = np.asarray(val[1], dtype=float)
+                exp = np.moveaxis(H, [-2, -1], [0, 1]) if H.ndim > 2 else H      # (arg, arg, *out)
+                Hp, exp = np.squeeze(Hp), np.squeeze(exp)
+                n_cmp += 1
+                if Hp.shape != exp.shape or not np.allclose(Hp, exp, atol=1e-7):
+                    viol.append(Violation(key="param_shift_hessian[qnode]:wrong-hessian", detail=f"got {np.round(Hp, 6).tolist()} expected {np.round(exp, 6).tolist()} for {tlc_ops(c)} x={c['x']} meas={c['meas']}",
+                                          replay={"case": c}))
                 continue
             if isinstance(val, tuple):
                 # param_shift_hessian differentiates the TAPE parameters (one per trainable gate): compare in gate space
@@ -112,7 +210,7 @@ def run(tier, seed):
     if np.allclose(np.array([0.3]), np.array([0.3 + 1e-5]), atol=1e-7):
         raise lib.MachineryError("negative control accepted")
     cov = {"states": stats["distinct"], "transitions": stats["generated"], "traces_validated_against_impl": n_cmp, "evaluations": n_cmp,
-           "distinct_nontrivial": len(nontriv), "rule": "seeded circuits as in C34 with 1-4 trainable gates; non-trivial = distinct circuits with >= 2 arguments "
+           "distinct_nontrivial": len(nontriv), "rule": "seeded circuits as in C34 with 1-4 trainable gates plus directed families (qp.Rot with separate / shared angles, trainable controlled rotations under a phase-sensitive observable, shared and rescaled arguments with probs); non-trivial = distinct circuits with >= 2 arguments "
            "and a non-zero exact Hessian on which every accepting configuration agreed", "samples": samples, "rejections": rej,
            "negative_controls_rejected": 1}
     return CheckResult(coverage=cov, violations=viol, assumptions=["exact states psi, d psi, d^2 psi from TLC; bilinear forms in float64; 1e-7"])
